@@ -20,8 +20,9 @@ Record xv_params := {
      defined"); the switch is kept so that the difference is on record.  No rule reads it. *)
   xp_defer_rules : bool;
   (* apollo: @skip / @include on a selection at the root level of a subscription (root selection set
-     expanded through inline fragments and named fragments) is an error (validate_subscription:
-     SubscriptionUsesConditionalSelection).  In the October 2021 text CollectFields evaluates them. *)
+     expanded through the inline fragments and named fragments whose type condition applies to the subscription
+     root type) is an error (validate_subscription: SubscriptionUsesConditionalSelection).  In the October 2021
+     text CollectFields evaluates them. *)
   xp_subscription_skip_include_rule : bool;
   (* 5.5.2.3: by the letter GetPossibleTypes(parent) /\ GetPossibleTypes(fragment) must be non-empty, so a
      spread `... on I` inside a selection on I is invalid when the interface I has no implementing object.
@@ -315,7 +316,8 @@ Definition xv_thread {A B} (f : list str -> A -> list str * list B) : list str -
     end.
 
 (* the response keys and field names collected, in order; `visited` is the spec's visitedFragments.
-   `conds` = true is the specification (DoesFragmentTypeApply is consulted); false is read only by Exec/Known.v.
+   `conds` = true is the specification (DoesFragmentTypeApply is consulted); false is read only by Exec/Known.v
+   (the record of a repaired defect).
    Fuel: one unit per fragment entered; each fragment is entered at most once, so S (length frags) is enough. *)
 Fixpoint xv_collect_root (fuel : nat) (s : schema) (frags : list (str * xv_frag)) (apply_dirs conds : bool)
     (object_type : str) (visited : list str) (sels : list selection) {struct fuel}
@@ -353,10 +355,15 @@ Definition xv_keys_distinct (l : list (str * str)) : list str := xv_union [] (ma
 Definition xv_is_introspection_name (n : str) : bool :=
   match n with 95 :: 95 :: _ => true | _ => false end.
 
-(* selections at the root level of an operation, through inline fragments and named fragments whatever their
-   type conditions (used only by the apollo @skip/@include switch) *)
-Fixpoint xv_root_level_dirs (fuel : nat) (frags : list (str * xv_frag)) (visited : list str)
-    (sels : list selection) {struct fuel} : list str * list (list directive) :=
+(* the directive lists of the selections at the root level of an operation (used only by the apollo
+   @skip/@include switch): the selections CollectFields visits with no directive evaluated, i.e. through inline
+   fragments and named fragments whose type condition applies to the root type; a fragment spread or inline
+   fragment contributes its own directives whether or not its type condition applies (validation/operation.rs
+   walk_selections, as CollectSubscriptionFields of the later specification drafts).
+   `conds` = true is the rule; false (type conditions ignored) is read only by Exec/Known.v. *)
+Fixpoint xv_root_level_dirs (fuel : nat) (s : schema) (frags : list (str * xv_frag)) (conds : bool)
+    (object_type : str) (visited : list str) (sels : list selection) {struct fuel}
+    : list str * list (list directive) :=
   match fuel with
   | O => (visited, [])
   | S fuel' =>
@@ -369,10 +376,16 @@ Fixpoint xv_root_level_dirs (fuel : nat) (frags : list (str * xv_frag)) (visited
                else match xv_assoc n frags with
                     | None => (n :: visited, [dirs])
                     | Some f =>
-                        let '(v, l) := xv_root_level_dirs fuel' frags (n :: visited) (xv_frag_sels f) in
-                        (v, dirs :: l)
+                        if negb conds || xv_type_applies s object_type (xv_frag_cond f)
+                        then let '(v, l) := xv_root_level_dirs fuel' s frags conds object_type (n :: visited)
+                                              (xv_frag_sels f) in
+                             (v, dirs :: l)
+                        else (n :: visited, [dirs])
                     end
-           | SInline _ dirs sub => let '(v, l) := xv_thread go visited sub in (v, dirs :: l)
+           | SInline c dirs sub =>
+               if negb conds || match c with Some c => xv_type_applies s object_type c | None => true end
+               then let '(v, l) := xv_thread go visited sub in (v, dirs :: l)
+               else (visited, [dirs])
            end) visited sels
   end.
 
@@ -402,15 +415,20 @@ Definition xv_r_subscription_single_root (p : xv_params) (s : schema) (d : docum
   forallb (xv_subscription_ok p s (xv_frags d)) (xv_ops d).
 
 (* switch xp_subscription_skip_include_rule *)
-Definition xv_r_subscription_no_skip_include (p : xv_params) (s : schema) (d : document) : bool :=
+Definition xv_r_subscription_no_skip_include_gen (conds : bool) (p : xv_params) (s : schema) (d : document) : bool :=
   negb (xp_subscription_skip_include_rule p) ||
   forallb (fun o =>
     match xo_type o with
     | OpSubscription =>
-        forallb (fun dirs => negb (xv_has_skip_include dirs))
-                (snd (xv_root_level_dirs (S (length (xv_frags d))) (xv_frags d) [] (xo_sels o)))
+        match xv_root s OpSubscription with
+        | None => true                         (* no subscription type: nothing to collect against *)
+        | Some st =>
+            forallb (fun dirs => negb (xv_has_skip_include dirs))
+                    (snd (xv_root_level_dirs (S (length (xv_frags d))) s (xv_frags d) conds st [] (xo_sels o)))
+        end
     | _ => true
     end) (xv_ops d).
+Definition xv_r_subscription_no_skip_include := xv_r_subscription_no_skip_include_gen true.
 
 (* switch xp_reject_undefined_root_operation *)
 Definition xv_r_root_operation_defined (p : xv_params) (s : schema) (d : document) : bool :=
@@ -785,8 +803,8 @@ Definition xv_r_variables_input_types (s : schema) (d : document) : bool :=
 (* a variable usage: the name and, where the position has an expected type, that type and whether the
    position (argument or input object field) has a default value.  Two facts about the position are recorded
    for Exec/Known.v (the rules of this file do not read them): whether the usage is nested inside a list or
-   object literal, and whether it is inside an object literal written for a custom scalar (the latter is read
-   only by the record of a repaired defect, xk_old_r_variables_defined). *)
+   object literal, and whether it is inside an object literal written for a custom scalar (both are read only by
+   the records of repaired defects, xk_old_r_variable_usages_allowed and xk_old_r_variables_defined). *)
 Record xv_usage := { xu_name : str; xu_loc : option (ty * bool); xu_nested : bool; xu_in_scalar_object : bool }.
 
 (* the usages inside a value written where `expected` is expected.  5.8.5: "the expected type of the Argument,
